@@ -320,7 +320,7 @@ fn spawn_on<'vm>(
         type Type = <F::Output as VmType>::Type;
     }
 
-    fn push_future_wrapper<G>(context: &mut ActiveThread, _: &G)
+    fn push_future_wrapper<G>(context: &mut ActiveThread, _: &G) -> crate::Result<()>
     where
         G: Future<Output = IO<OpaqueValue<RootedThread, Pushed<A>>>> + Send + 'static,
     {
@@ -342,7 +342,6 @@ fn spawn_on<'vm>(
             ]
         )
         .vm_push(context)
-        .unwrap();
     }
     use crate::value::PartialApplicationDataDef;
 
@@ -364,9 +363,15 @@ fn spawn_on<'vm>(
 
     let mut context = vm.current_context();
 
-    push_future_wrapper(&mut context, &future);
+    // These allocate so they fail when the thread is out of memory. The context is locked here so
+    // that must be reported as an error, a panic would leave the thread unusable
+    if let Err(err) = push_future_wrapper(&mut context, &future) {
+        return IO::Exception(err.to_string());
+    }
 
-    SpawnFuture(future.shared()).vm_push(&mut context).unwrap();
+    if let Err(err) = SpawnFuture(future.shared()).vm_push(&mut context) {
+        return IO::Exception(err.to_string());
+    }
 
     let mut context = context.context();
     let callable = match context.stack[context.stack.len() - 2].get_repr() {
@@ -376,7 +381,10 @@ fn spawn_on<'vm>(
 
     let fields = slice::from_ref(context.stack.last().unwrap());
     let def = construct_gc!(PartialApplicationDataDef(@callable, fields));
-    let value = Variants::from(context.gc.alloc(def).unwrap());
+    let value = match context.gc.alloc(def) {
+        Ok(value) => Variants::from(value),
+        Err(err) => return IO::Exception(err.to_string()),
+    };
 
     context.stack.pop_many(2);
     context.stack.push(value);
